@@ -99,6 +99,7 @@ def prepared(prog: Program, fn: FuncInfo) -> FuncNode:
         node = inline_straightline(prog, fn, inline_helpers(prog, fn, node=node))
     dewalrus_comprehensions(node)
     fold_list_loops(node)
+    fold_sum_loops(node)
     return node
 
 
@@ -153,6 +154,7 @@ def path_follower(prog: Program, fn: FuncInfo, stop: tuple[str, ...] = ()) -> An
             c = copy.deepcopy(t)
             dewalrus_comprehensions(c)
             fold_list_loops(c)
+            fold_sum_loops(c)
             cache[id(t)] = c
         return cache[id(t)]
     return follow
@@ -167,13 +169,20 @@ def _child_suites(s: ast.stmt) -> list[list[ast.stmt]]:
     return out
 
 
-def _fresh_list_before(fn: FuncNode, stmt: ast.stmt, a: str) -> bool:
-    """`a` is bound to an empty list by a statement of the suite holding `stmt` or of an enclosing suite,
-    executed before `stmt`, with no other mention of `a` in between (statements passed on the way)."""
+def _empty_list(v: ast.AST) -> bool:
+    return isinstance(v, ast.List) and not v.elts or simple_call(v, ("list",), 0) is not None
+
+
+def _zero(v: ast.AST) -> bool:
+    return isinstance(v, ast.Constant) and isinstance(v.value, (int, float)) and not isinstance(v.value, bool) and v.value == 0
+
+
+def _fresh_before(fn: FuncNode, stmt: ast.stmt, a: str, is_value: Callable[[ast.AST], bool]) -> bool:
+    """`a` is bound to a fresh value (`is_value`: an empty list, a zero) by a statement of the suite holding
+    `stmt` or of an enclosing suite, executed before `stmt`, with no other mention of `a` in between."""
     def is_init(s: ast.stmt) -> bool:
         return isinstance(s, (ast.Assign, ast.AnnAssign)) and s.value is not None \
-            and is_name(s.targets[0] if isinstance(s, ast.Assign) else s.target, a) \
-            and (isinstance(s.value, ast.List) and not s.value.elts or simple_call(s.value, ("list",), 0) is not None)
+            and is_name(s.targets[0] if isinstance(s, ast.Assign) else s.target, a) and is_value(s.value)
 
     def chain(suite: list[ast.stmt]) -> list[tuple[list[ast.stmt], int]] | None:
         """(suite, index) pairs from this suite down to the one holding `stmt`."""
@@ -196,6 +205,89 @@ def _fresh_list_before(fn: FuncNode, stmt: ast.stmt, a: str) -> bool:
     return False
 
 
+def _appends_only(node: ast.AST) -> None:
+    """`a += [x]`, `a = a + [x]`, `a.extend([x])` are `a.append(x)` (in place)."""
+    class T(ast.NodeTransformer):
+        def _one(self, v: ast.AST) -> ast.AST | None:
+            return v.elts[0] if isinstance(v, (ast.List, ast.Tuple)) and len(v.elts) == 1 and not isinstance(v.elts[0], ast.Starred) else None
+
+        def _app(self, at: ast.stmt, a: str, x: ast.AST) -> ast.stmt:
+            return ast.copy_location(ast.Expr(value=ast.Call(func=ast.Attribute(value=name(a), attr="append", ctx=ast.Load()),
+                                                             args=[x], keywords=[])), at)
+
+        def visit_AugAssign(self, n: ast.AugAssign) -> ast.AST:  # noqa: N802
+            x = self._one(n.value)
+            if isinstance(n.op, ast.Add) and isinstance(n.target, ast.Name) and x is not None:
+                return self._app(n, n.target.id, x)
+            return n
+
+        def visit_Assign(self, n: ast.Assign) -> ast.AST:  # noqa: N802
+            if len(n.targets) == 1 and isinstance(n.targets[0], ast.Name) and isinstance(n.value, ast.BinOp) \
+                    and isinstance(n.value.op, ast.Add) and is_name(n.value.left, n.targets[0].id):
+                x = self._one(n.value.right)
+                if x is not None:
+                    return self._app(n, n.targets[0].id, x)
+            return n
+
+        def visit_Expr(self, n: ast.Expr) -> ast.AST:  # noqa: N802
+            c = n.value
+            if isinstance(c, ast.Call) and isinstance(c.func, ast.Attribute) and c.func.attr == "extend" \
+                    and isinstance(c.func.value, ast.Name) and len(c.args) == 1 and not c.keywords:
+                x = self._one(c.args[0])
+                if x is not None:
+                    return self._app(n, c.func.value.id, x)
+            return n
+    T().visit(node)
+    ast.fix_missing_locations(node)
+
+
+def fold_sum_loops(node: FuncNode) -> None:
+    """`t = 0; for T in IT: …; t += inc` with EVERY pass of the body adding the same `inc` is read as
+    `t = sum(inc for T in IT)`, bound right after the loop — for loops at any depth (an inverter sum written
+    as a loop inside the loop over the groups).  Guarded accumulations (a pass that adds nothing) are left
+    to fold_loops, whose caller judges the guards.  In place (analysis-only copy)."""
+    for suite in reversed(list(_suite_lists(node))):      # innermost suites first
+        i = 0
+        while i < len(suite):
+            st = suite[i]
+            i += 1
+            if not isinstance(st, ast.For) or st.orelse or getattr(st, "_sums_folded", False):
+                continue
+            st._sums_folded = True  # type: ignore[attr-defined]
+            cands = sorted(_stored(st) - _stored(st.target))
+            if not cands:
+                continue
+            try:
+                passes = sym_block(st.body)
+            except SymUnsupported:
+                continue
+            if any(status not in ("next", "continue", "raise") for _p, status in passes):
+                continue
+            live = [p for p, status in passes if status != "raise" and p.exit != "raise"]
+            new: list[ast.stmt] = []
+            for a in cands:
+                incs = []
+                for p in live:
+                    v = p.env.get(a)
+                    inc = None
+                    if isinstance(v, ast.BinOp) and isinstance(v.op, ast.Add):
+                        inc = v.right if is_name(v.left, a) else v.left if is_name(v.right, a) else None
+                    if inc is None or any(is_name(n, a) for n in ast.walk(inc)):
+                        incs = []
+                        break
+                    incs.append(inc)
+                if not incs or len({u(x) for x in incs}) != 1 or not _fresh_before(node, st, a, _zero):
+                    continue
+                total = ast.Call(func=name("sum"), args=[ast.GeneratorExp(elt=copy.deepcopy(incs[0]), generators=[
+                    ast.comprehension(target=copy.deepcopy(st.target), iter=copy.deepcopy(st.iter), ifs=[], is_async=0)])],
+                    keywords=[])
+                new.append(ast.copy_location(ast.Assign(targets=[ast.Name(id=a, ctx=ast.Store())], value=total), st))
+            if new:
+                suite[i:i] = new
+                i += len(new)
+    ast.fix_missing_locations(node)
+
+
 def fold_list_loops(node: FuncNode) -> None:
     """`a = []; for T in IT: …; a.append(X)` is read as `a = [X for T in IT if <the pass appends>]`: the
     comprehension is bound to `a` right after the loop (the loop itself stays, it may do other things).
@@ -205,7 +297,8 @@ def fold_list_loops(node: FuncNode) -> None:
     conjunction of the loop body's conditions.  X has the loop body's locals substituted; a name the loop
     carries from one iteration to the next (a threaded timestamp) stays free in X, i.e. the reading is
     exact only for rules that do not look at such operands.  Works in place (analysis-only copy)."""
-    for suite in list(_suite_lists(node)):
+    _appends_only(node)
+    for suite in reversed(list(_suite_lists(node))):      # innermost suites first
         i = 0
         while i < len(suite):
             st = suite[i]
@@ -232,7 +325,7 @@ def fold_list_loops(node: FuncNode) -> None:
             for a in names:
                 uses = [n for n in ast.walk(st) if is_name(n, a)]
                 n_app = sum(1 for n in ast.walk(st) if isinstance(n, ast.Call) and appends(n, a))
-                if a in _stored(st) or len(uses) != n_app or not _fresh_list_before(node, st, a):
+                if a in _stored(st) or len(uses) != n_app or not _fresh_before(node, st, a, _empty_list):
                     continue
                 adding, skipping, vals = [], [], []
                 for p in live:
@@ -389,28 +482,29 @@ def _none_filter(c: ast.AST) -> bool:
 
 
 def elem_of(e: ast.AST, roots: list[ast.AST] | None = None, root_symbol: str | None = None,
-            norm: Callable[[ast.AST], ast.AST] | None = None) -> ast.AST | None:
+            norm: Callable[[ast.AST], ast.AST] | None = None, keep_order: bool = False) -> ast.AST | None:
     """Generic element of the iterable `e` (None: not an element-wise view of its roots).
 
     `roots` collects the root iterables (after `norm`) in binding order; the first root's element is
-    named `root_symbol` when given, every other `<elem of TEXT>`."""
+    named `root_symbol` when given, every other `<elem of TEXT>`.  With `keep_order` only views that keep
+    the order of the root are looked through (no sorted / reversed)."""
     roots = roots if roots is not None else []
-    args = simple_call(e, ("list", "tuple", "iter", "reversed"), 1)
-    if args is None and isinstance(e, ast.Call) and is_name(e.func, "sorted") and len(e.args) == 1 \
+    args = simple_call(e, ("list", "tuple", "iter") if keep_order else ("list", "tuple", "iter", "reversed"), 1)
+    if args is None and not keep_order and isinstance(e, ast.Call) and is_name(e.func, "sorted") and len(e.args) == 1 \
             and all(k.arg in ("key", "reverse") for k in e.keywords):
         args = list(e.args)
     if args is not None:
-        return elem_of(args[0], roots, root_symbol, norm)
+        return elem_of(args[0], roots, root_symbol, norm, keep_order)
     if isinstance(e, ast.Call) and is_name(e.func, "filter") and len(e.args) == 2 and not e.keywords:
         f = e.args[0]
         if isinstance(f, ast.Constant) and f.value is None:
-            return elem_of(e.args[1], roots, root_symbol, norm)
+            return elem_of(e.args[1], roots, root_symbol, norm, keep_order)
         if isinstance(f, ast.Lambda) and len(f.args.args) == 1 and _none_filter(f.body):
-            return elem_of(e.args[1], roots, root_symbol, norm)
+            return elem_of(e.args[1], roots, root_symbol, norm, keep_order)
         return None
     if isinstance(e, ast.Call) and is_name(e.func, "map") and len(e.args) == 2 and not e.keywords:
         f = e.args[0]
-        src = elem_of(e.args[1], roots, root_symbol, norm)
+        src = elem_of(e.args[1], roots, root_symbol, norm, keep_order)
         if src is None:
             return None
         if isinstance(f, ast.Lambda):
@@ -426,7 +520,7 @@ def elem_of(e: ast.AST, roots: list[ast.AST] | None = None, root_symbol: str | N
         for g in e.generators:
             if g.is_async:
                 return None
-            src = elem_of(subst(g.iter, env), roots, root_symbol, norm)
+            src = elem_of(subst(g.iter, env), roots, root_symbol, norm, keep_order)
             if src is None:
                 return None
             b = bind_target(g.target, src)
@@ -777,9 +871,11 @@ def availability(prog: Program, fn: FuncInfo, node: FuncNode, e: ast.AST, depth:
     if isinstance(e, ast.UnaryOp) and isinstance(e.op, ast.Not):
         return flip[availability(prog, fn, node, e.operand, depth)]
     if isinstance(e, ast.BoolOp):
-        ks = {availability(prog, fn, node, v, depth) for v in e.values}
-        want = "present" if isinstance(e.op, ast.And) else "missing"
-        return want if ks == {want} else None
+        is_and = isinstance(e.op, ast.And)
+        vals = [v for v in e.values if not (isinstance(v, ast.Constant) and v.value is is_and)]   # neutral literal
+        ks = {availability(prog, fn, node, v, depth) for v in vals}
+        want = "present" if is_and else "missing"
+        return want if vals and ks == {want} else None
     if isinstance(e, ast.Compare) and len(e.ops) == 1 and isinstance(e.ops[0], (ast.Is, ast.IsNot)) \
             and isinstance(e.comparators[0], ast.Constant) and e.comparators[0].value is None:
         return "missing" if isinstance(e.ops[0], ast.Is) else "present"
@@ -799,12 +895,16 @@ def availability(prog: Program, fn: FuncInfo, node: FuncNode, e: ast.AST, depth:
             binds = _bind(h, e)
             loop = search_loop(h)
             if binds is not None and loop is not None:
-                # `for T in IT: if C: return True` / `return False`  ==  any(C for T in IT)   (dually all)
-                quant, target, it, cond = loop
-                gen = ast.GeneratorExp(elt=cond if quant == "any" else ast.UnaryOp(op=ast.Not(), operand=cond),
-                                       generators=[ast.comprehension(target=target, iter=it, ifs=[], is_async=0)])
-                k = availability(prog, fn, node, subst(ast.Call(func=name("any"), args=[gen], keywords=[]), binds), depth - 1)
-                return k if quant == "any" else flip[k]
+                # `for T in IT: if C: return True` / `return E`   ==  any(C for T in IT) or E
+                # `for T in IT: if C: return False` / `return E`  ==  not any(C for T in IT) and E
+                hit, target, it, cond, rest = loop
+                found: ast.AST = ast.Call(func=name("any"), args=[ast.GeneratorExp(elt=cond, generators=[
+                    ast.comprehension(target=target, iter=it, ifs=[], is_async=0)])], keywords=[])
+                whole = ast.BoolOp(op=ast.Or(), values=[found, rest]) if hit else ast.BoolOp(
+                    op=ast.And(), values=[ast.UnaryOp(op=ast.Not(), operand=found), rest])
+                return availability(prog, fn, node, subst(whole, binds), depth - 1)
+            if any(isinstance(r, ast.Return) for lp in ast.walk(h) if isinstance(lp, (ast.For, ast.While)) for r in ast.walk(lp)):
+                return None                                 # a loop that returns, in another shape: not read
             try:
                 rets = [p for p in sym_paths(h) if p.exit == "return" and p.ret is not None]
             except SymUnsupported:
@@ -814,12 +914,12 @@ def availability(prog: Program, fn: FuncInfo, node: FuncNode, e: ast.AST, depth:
     return None
 
 
-def search_loop(h: FuncNode) -> tuple[str, ast.AST, ast.AST, ast.AST] | None:
-    """('any' | 'all', target, iterable, condition) when the body of `h` is the search idiom
-    `for T in IT: if C: return <b>` followed by `return <not b>` (b a boolean literal): `h(...)` is
-    any(C …) for b == True and not any(C …) for b == False."""
+def search_loop(h: FuncNode) -> tuple[bool, ast.AST, ast.AST, ast.AST, ast.AST] | None:
+    """(b, target, iterable, condition, E) when the body of `h` is the search idiom
+    `for T in IT: if C: return <b>` followed by `return E` (b a boolean literal)."""
     body = strip_doc(h.body)
-    if len(body) != 2 or not isinstance(body[0], ast.For) or body[0].orelse or not isinstance(body[1], ast.Return):
+    if len(body) != 2 or not isinstance(body[0], ast.For) or body[0].orelse or not isinstance(body[1], ast.Return) \
+            or body[1].value is None:
         return None
     loop, last = body
     if len(loop.body) != 1 or not isinstance(loop.body[0], ast.If) or loop.body[0].orelse:
@@ -827,8 +927,7 @@ def search_loop(h: FuncNode) -> tuple[str, ast.AST, ast.AST, ast.AST] | None:
     test = loop.body[0]
     if len(test.body) != 1 or not isinstance(test.body[0], ast.Return):
         return None
-    hit, miss = test.body[0].value, last.value
-    if not (isinstance(hit, ast.Constant) and isinstance(miss, ast.Constant) and isinstance(hit.value, bool)
-            and isinstance(miss.value, bool) and hit.value != miss.value):
+    hit = test.body[0].value
+    if not (isinstance(hit, ast.Constant) and isinstance(hit.value, bool)):
         return None
-    return ("any" if hit.value else "all"), copy.deepcopy(loop.target), copy.deepcopy(loop.iter), copy.deepcopy(test.test)
+    return hit.value, copy.deepcopy(loop.target), copy.deepcopy(loop.iter), copy.deepcopy(test.test), copy.deepcopy(last.value)
